@@ -24,6 +24,7 @@ import (
 	"sort"
 	"strconv"
 	"strings"
+	"time"
 
 	"elaverif/harness/hx"
 
@@ -453,6 +454,34 @@ func status(st *state2.State) string {
 }
 
 func exec(t []string) string {
+	if e != nil && e.arbMode && t[0] != "reset" {
+		// Arbiters keeps a mutex across calls; a panic inside it would block the next call for ever
+		done := make(chan string, 1)
+		var pan interface{}
+		go func() {
+			defer func() {
+				if r := recover(); r != nil {
+					pan = r
+					done <- "panic"
+				}
+			}()
+			done <- exec1(t)
+		}()
+		select {
+		case out := <-done:
+			if pan != nil {
+				panic(pan)
+			}
+			return out
+		case <-time.After(60 * time.Second):
+			fmt.Fprintln(os.Stderr, "HARNESS BUG: harness: Arbiters call blocked on op", strings.Join(t, " "))
+			os.Exit(3)
+		}
+	}
+	return exec1(t)
+}
+
+func exec1(t []string) string {
 	switch t[0] {
 	case "reset":
 		base := uint32(0)
@@ -887,7 +916,7 @@ func gen(g *hx.Gen) {
 					votes++
 				}
 			}
-			if r.Chance(8) { // consensus mode switches
+			if r.Chance(8) && !e.arbMode { // consensus mode switches (in Arbiters mode the revert logic needs the real chain: it can block)
 				if st.ConsensusAlgorithm == state2.DPOS {
 					txs = append(txs, fmt.Sprintf("rtp:%d", h+1))
 					lastRTP = h
